@@ -79,7 +79,7 @@ CHECKS['C15'] = dict(
          'C15_key_order_neutral_plain + C15_permutation_is_peqv (permuting the entries of any mappings of any documents of a tag-free history of well-formed documents changes at most the '
          'order of keys of the result: the reference update is a congruence for equality-up-to-entry-order, Proofs/KeyOrder.v), '
          'all lifted to the model of Builder.flatten through the C02 refinement. WITH PRIORITY TAGS: C15_idempotent_last_prioritised - repeating the last document of any history of mapping '
-         'documents whose scalars and enclosing mappings carry arbitrary priorities (the class of the C03 refinement) changes no value and no node priority; C15_empty_neutral_prioritised - an empty mapping document anywhere after the first one changes nothing below the root (C15_prioritised_update_idempotent, '
+         'documents whose scalars and enclosing mappings carry arbitrary priorities (the class of the C03 refinement) changes no value and no node priority; C15_empty_neutral_prioritised - an empty mapping document anywhere after the first one changes nothing below the root; C15_key_order_neutral_prioritised - histories that differ only in the order of mapping entries (at any depth) build trees equal up to that order, values and priorities (peqvp is a congruence for upd_p: upd_p_peqvp via the key-by-key characterisation updp_go_get; C15_permutation_is_peqvp) (C15_prioritised_update_idempotent, '
          'C15_prioritised_self_merge on the reference upd_p). Partial: for the other tagged histories (lists with priorities, !del, !merge) '
          'and for the !new neutrality clause the verdict comes from the correspondence (incl. exhaustive T2 sweeps of _get_child_kwargs and _propagate_implicit_values, '
          'the two procedures whose disagreement was defect D16) and five metamorphic oracles; determinism of the functional model is trivial and is checked on the implementation by building twice.',
